@@ -98,3 +98,19 @@ impl rustls::sign::Signer for IrohSecretKey {
         rustls::SignatureScheme::ED25519
     }
 }
+
+/// Verification harness wrapper (see /verif): what an endpoint holding `secret_key` presents in
+/// the handshake: its certificate chain, the signature scheme and its signature over `message`.
+#[cfg(iroh_verif)]
+pub(crate) fn verif_ident_present(
+    secret_key: &SecretKey,
+    message: &[u8],
+) -> Option<(Vec<Vec<u8>>, u16, Vec<u8>)> {
+    use rustls::client::ResolvesClientCert;
+    let resolver = ResolveRawPublicKeyCert::new(secret_key);
+    let certified = ResolvesClientCert::resolve(&resolver, &[], &[rustls::SignatureScheme::ED25519])?;
+    let signer = certified.key.choose_scheme(&[rustls::SignatureScheme::ED25519])?;
+    let sig = signer.sign(message).ok()?;
+    let chain = certified.cert.iter().map(|c| c.as_ref().to_vec()).collect();
+    Some((chain, u16::from(signer.scheme()), sig))
+}
